@@ -5,18 +5,19 @@
 set -u
 ID=$1; NAME=$2; shift 2
 OUT=/tmp/mut/$ID-out; WT=/tmp/mut/$ID
-cd /repo || exit 2
-git diff --quiet || { echo "/repo is dirty"; exit 2; }
+R=${VERIF_REPO:-/repo}; V=$(cd "$(dirname "$0")/.." && pwd)
+cd $R || exit 2
+git diff --quiet || { echo "$R is dirty"; exit 2; }
 echo "== suite in the worktree (change applied)"
 (cd $WT && git diff --stat | tail -1; PYTHONPATH=$WT/src timeout 1500 /venv/bin/python -m pytest -q -p no:cacheprovider --timeout=900 --continue-on-collection-errors -q src/icalendar 2>&1 | tail -5 | grep -v "^$" | cut -c1-160)
-echo "== demo on unchanged /repo"; PYTHONPATH=/repo/src PYTHONHASHSEED=0 /venv/bin/python $OUT/demo.py > /tmp/mut/$ID.demo0 2>&1; echo "rc=$? $(tail -1 /tmp/mut/$ID.demo0 | cut -c1-160)"
-git apply $OUT/patch.diff || { echo "patch does not apply to /repo"; exit 2; }
-echo "== demo with change"; PYTHONPATH=/repo/src PYTHONHASHSEED=0 /venv/bin/python $OUT/demo.py > /tmp/mut/$ID.demo1 2>&1; echo "rc=$? $(tail -1 /tmp/mut/$ID.demo1 | cut -c1-160)"
-rm -rf /verif/build/evidence.keep; cp -r /verif/evidence /verif/build/evidence.keep   # evidence of a changed tree is not kept
+echo "== demo on unchanged /repo"; PYTHONPATH=$R/src PYTHONHASHSEED=0 /venv/bin/python $OUT/demo.py > /tmp/mut/$ID.demo0 2>&1; echo "rc=$? $(tail -1 /tmp/mut/$ID.demo0 | cut -c1-160)"
+git apply $OUT/patch.diff || { echo "patch does not apply to $R"; exit 2; }
+echo "== demo with change"; PYTHONPATH=$R/src PYTHONHASHSEED=0 /venv/bin/python $OUT/demo.py > /tmp/mut/$ID.demo1 2>&1; echo "rc=$? $(tail -1 /tmp/mut/$ID.demo1 | cut -c1-160)"
+rm -rf $V/build/evidence.keep; cp -r $V/evidence $V/build/evidence.keep   # evidence of a changed tree is not kept
 for P in "$@"; do
   echo "== check $P with change"
-  (cd /verif && ./check $P --tier quick 2>&1 | grep -v '^KNOWN' | tail -2 | cut -c1-300)
+  (cd $V && ./check $P --tier quick 2>&1 | grep -v '^KNOWN' | tail -2 | cut -c1-300)
 done
-cp /verif/build/evidence.keep/*.json /verif/evidence/; git checkout -- . ; git status --short | head -3
+cp $V/build/evidence.keep/*.json $V/evidence/; git checkout -- . ; git status --short | head -3
 echo "== restored"
-mkdir -p /verif/seeded/$NAME && cp $OUT/patch.diff $OUT/demo.py $OUT/meta.json /verif/seeded/$NAME/
+mkdir -p $V/seeded/$NAME && cp $OUT/patch.diff $OUT/demo.py $OUT/meta.json $V/seeded/$NAME/
